@@ -1,6 +1,6 @@
 (* Proofs/C10JumbfProofs.v — C10 for the JUMBF box reader (Model/C10Jumbf.v).
 
-   As coded the reader is NOT total: a 5..7-byte tail whose size field equals 16 - (tail length) makes the
+   Before commit 7b268693b ([strict = false], [cadd = false]) the reader was NOT total: a 5..7-byte tail whose size field equals 16 - (tail length) makes the
    unknown-box arm return to the position it started from, for ever ([hang_forever]); and in a debug build
    `start_pos + jumb_header.size` overflows on a nested superbox with a 64-bit size ([overflow_panics]).
    The strongest true statements are proved for every byte string:
